@@ -68,10 +68,10 @@ def plan(ctx):
                       sample={"symbolic": "block size 0..10, 2x14 buffer bytes" + (", coefficient, xor flag" if mode == 2 else "")},
                       targets=["region_xor"] if mode == 1 else ["region_multiply"]))
     # encode words + MDS: every k-subset of rows decodes (exhaustive erasure sets of size exactly m)
-    mds = [(2, 1), (2, 2), (3, 2), (4, 2)] + ([(3, 3), (4, 3), (5, 3), (4, 4), (6, 3), (6, 4), (8, 4), (10, 2)] if thorough else [])
+    mds = [(2, 1), (2, 2), (3, 2)] + ([(4, 2), (3, 3), (4, 3), (5, 3), (4, 4), (6, 3), (6, 4), (8, 4), (10, 2)] if thorough else [])
     for k, m in mds:
         sets = list(esets(k + m, m, m))
-        for i, ch in enumerate(chunks(sets, 3)):
+        for i, ch in enumerate(chunks(sets, 1)):
             obs.append(be_l1_ob(RS, k, m, m, ch, w=1, tag="mds", idx=i, timeout=1500, mem=(12 if k >= 8 else 4)))
     return {"obs": obs, "native": [native_k2],
             "assumptions": ["K1 proves the table algorithm at width 8 for every operand pair; the production-width table CONTENTS are covered by K2's exhaustive native comparison only",
